@@ -35,7 +35,9 @@ ASSUMPTIONS = [
     "an unset scalar with no default known may read as the DEFAULT marker, None or ''; empty-string items of a comma "
     "list are ignored (an empty comma list may read [] or ['']); an unset list option with no default known reads []",
     "TimeMsecInterval and Time (no parser declared in txtorcon) are compared as text",
-    "a *PortLines family (FooPortLines / FooPort / __FooPort) is judged as the one option FooPort; __FooPort is never set; "
+    "a *PortLines family (FooPortLines / FooPort / __FooPort) is judged as the one option FooPort; __FooPort is set only "
+    "in the tagged tables where FooPort is unset and has no default known: FooPort may then read [] or __FooPort's entries "
+    "(the statement does not say), but must read the same whether or not the application read it while attaching; "
     "'auto' and '0' are not generated as port entries; no IPv6 / bracketed addresses",
     "values never need C-escapes or quoting in replies/events (C12/C13's subject)",
     "comma lists after a local save are judged on the wire form only: the fake Tor takes 'K=a K=b' as 'a,b'",
@@ -76,7 +78,7 @@ ANCHORS = [
 FLOORS = {
     "quick": {"evaluations": 300, "bootstrap_reads_compared": 5000, "events_delivered": 300, "event_reads_compared": 4000,
               "tracking_probes": 250, "name_lookups_compared": 10000, "socks_endpoint_checks": 600,
-              "attach_events_delivered": 100, "early_probe_reads": 300, "events_after_rejected_save": 60, "events_after_accepted_save": 30,
+              "attach_events_delivered": 100, "early_probe_reads": 300, "reads_compared_with_unprobed_attach": 1000, "events_after_rejected_save": 60, "events_after_accepted_save": 30,
               "reach:txtorcon.torconfig:TorConfig._conf_changed": 400,
               "reach:txtorcon.torconfig:TorConfig._do_setup": 300,
               "reach:txtorcon.torconfig:TorConfig._get_defaults": 300},
@@ -238,9 +240,14 @@ def gen_case(rnd, mode):
             case["attach_events"] = [e for e in case["attach_events"] if e["at"] != i] + \
                 [{"at": i, "when": "after-reply", "items": [[table[i]["name"], v] for v in vals]}]
             case["attach_events"].sort(key=lambda e: e["at"])
+    for o in table:
+        if o["type"] == CT.PORTLINES and not o["init"] and (case["no_defaults"] or not o["default"]) \
+                and mode != "events" and rnd.random() < 0.3:
+            o["hidden"] = CT.gen_values(rnd, CT.PORTLINES, "single")      # __FooPort is set, FooPort is not
     if mode == "attach" or rnd.random() < 0.2:
         # the application reads options (any spelling) from the object before / while it attaches
-        opts = rnd.sample(table, min(len(table), rnd.choice([1, 2, 3, 5])))
+        opts = rnd.sample(table, min(len(table), rnd.choice([1, 2, 3, 5, len(table)])))
+        opts += [o for o in table if o["type"] == CT.PORTLINES and o not in opts and rnd.random() < 0.7]
         case["probe"] = {"route": rnd.choice(["ctor", "ctor", "attach_protocol"]),
                          "spellings": {o["name"]: rnd.sample([o["name"], o["name"].lower(), o["name"].upper(),
                                                               case["spell"][o["name"]]], rnd.choice([1, 2, 3]))
@@ -306,6 +313,45 @@ class Run(object):
     def read(self, name):
         return getattr(self.cfg, name)
 
+    def hidden_state(self, n):
+        o = self.table[n]
+        return bool(o.get("hidden")) and not self.tor.conf.get(n) and not self.dflt(n)
+
+    def snapshot(self, cfg):
+        """what every option reads as, under Tor's own spelling"""
+        out = {}
+        for n in self.order:
+            try:
+                v = getattr(cfg, n)
+                out[n] = ("list", [repr(x) for x in v]) if isinstance(v, list) else ("scalar", repr(v))
+            except Exception as e:
+                out[n] = ("raised", type(e).__name__)
+        return out
+
+    def baseline_reads(self, route):
+        """the same attach (same table, same changes announced at the same points) with nobody reading from
+        the object while it attaches"""
+        case = self.case
+        evs = {(ev["at"], ev["when"]): ev for ev in case.get("attach_events") or []}
+        seen = {"k": -1}
+
+        def go(tor, key):
+            ev = evs.pop(key, None)
+            if ev is not None:
+                tor.external_change([(k, v) for k, v in ev["items"]])
+
+        def on_line(tor, line):
+            if line.upper().startswith("GETCONF ") and not line.split()[1].startswith("__"):
+                seen["k"] += 1
+                go(tor, (seen["k"], "before-reply"))
+
+        def after_reply(tor, line, code):
+            if line.upper().startswith("GETCONF ") and not line.split()[1].startswith("__"):
+                go(tor, (seen["k"], "after-reply"))
+        hooks = dict(on_line=on_line, after_reply=after_reply) if evs else {}
+        cfg = CT.boot(case["table"], no_defaults=case["no_defaults"], echo=case["echo"], route=route, **hooks)[0]
+        return None if cfg is None else self.snapshot(cfg)
+
     # -- all options vs the store --------------------------------------------
     def check_reads(self, stage, counter):
         for n in self.order:
@@ -331,6 +377,8 @@ class Run(object):
                 continue
             self.rec.count(counter)
             ok, why = CT.read_matches(got, o["type"], vals, self.dflt(n))
+            if not ok and self.hidden_state(n) and isinstance(got, list) and list(got) == list(o["hidden"]):
+                ok = True       # FooPort unset, no default known, __FooPort set: [] and the twin's entries both accepted
             if not ok:
                 self.V("%s-read-%s" % (stage, why), self.touch[n],
                        {"option": n, "type": o["type"], "tor_holds": vals, "default": self.dflt(n), "read": repr(got)[:200]})
@@ -391,6 +439,8 @@ class Run(object):
         before = CT.ref_read(o["type"], self.tor.conf.get(n), self.dflt(n))
         try:
             lst = self.read(spelled)
+            if self.hidden_state(n) and list(lst) == list(o["hidden"]):
+                before = list(o["hidden"])
             lst.append(value)
         except Exception as e:
             self.V("list-edit-raised-" + type(e).__name__, cls, {"option": n, "exc": repr(e)})
@@ -611,6 +661,18 @@ class Run(object):
         self.logged("bootstrap", "general")
         self.check_reads("bootstrap", "bootstrap_reads_compared")
         self.flush()
+        if pr:
+            # a read never changes what later reads return: compare with the same attach that nobody read from
+            base = self.baseline_reads(pr["route"])
+            mine = self.snapshot(cfg)
+            if base is not None:
+                for n in self.order:
+                    rec.count("reads_compared_with_unprobed_attach")
+                    if base[n] != mine[n]:
+                        self.V("early-read-changes-later-reads", self.touch[n] + "+route:" + pr["route"],
+                               {"option": n, "probed_as": pr["spellings"].get(n), "phases": pr["phases"],
+                                "reads_after_probed_attach": mine[n], "reads_after_quiet_attach": base[n]})
+            self.flush()
         self.check_lookup()
         self.check_socks("bootstrap")
         self.flush()
